@@ -79,7 +79,8 @@ func (b Bundle) Fragment(mtu int) (bs []Bundle, err error) {
 				continue
 			}
 
-			fragBundle.AddExtensionBlock(cb)
+			// Keep the block number; AddExtensionBlock would assign a new one.
+			fragBundle.CanonicalBlocks = append(fragBundle.CanonicalBlocks, cb)
 		}
 
 		fragPayloadBlockLen := mtu - overhead
@@ -251,7 +252,8 @@ func ReassembleFragments(bs []Bundle) (b Bundle, err error) {
 			continue
 		}
 
-		b.AddExtensionBlock(cb)
+		// Keep the block number; AddExtensionBlock would assign a new one.
+		b.CanonicalBlocks = append(b.CanonicalBlocks, cb)
 	}
 
 	if payload, payloadErr := mergeFragmentPayload(bs); payloadErr != nil {
